@@ -82,6 +82,14 @@ Section SelectorSem.
     In x (feature_filter re_match p ff) <-> In x ff /\ feval p x = true.
   Proof. unfold feature_filter. apply filter_In. Qed.
 
+  (* table order and multiplicity: the filter acts feature by feature *)
+  Theorem filter_pointwise p a x b :
+    feature_filter re_match p (a ++ x :: b) =
+    feature_filter re_match p a ++ (if feval p x then [x] else []) ++ feature_filter re_match p b.
+  Proof.
+    unfold feature_filter. rewrite filter_app. cbn [filter]. now destruct (feval p x).
+  Qed.
+
   (* boolean algebra *)
   Theorem and_sem a b f : feval (FAnd [a; b]) f = feval a f && feval b f.
   Proof. cbn. now rewrite andb_true_r. Qed.
